@@ -6,12 +6,66 @@ BASE_NOTE = ("Trusted: Lean 4.33 kernel (axioms of every property theorem audite
              "the hand-written Lean model tied to /repo by gen/extract.py (tables regenerated from source each run) and by the correspondence harness "
              "(real code in-process vs compiled Lean driver on generated inputs), CPython and its libraries (zipfile, expat/minidom, ElementTree, re, base64). ")
 CLAIMED = {
+    "C01": dict(tech="Lean 4 refinement theorems (converter text = docText spec; strip/collapse/write preserve text) + differential correspondence on generated packages + independent live-text oracle",
+                text="Proof: the converter's output text is proved equal to a structural text specification for all documents, style maps and states (C01_text_visit, C01_text_document), text is preserved by strip_empty/collapse (no separator) and by the writer (C02_text_of_written); the reader half and the tie to the code are decided by correspondence of the whole pipeline with the Lean model and with an independent reading of live text on the XML.",
+                note="the XML reader's text behaviour (deleted marks, text boxes, fields) is modelled and tied by correspondence; only the converter/HTML half is a theorem", ref="4 C01"),
+    "C02": dict(tech="Lean 4 theorems (escape laws, strict lexer round trip lex(write ns) = tokens ns, balance) + correspondence + metamorphic string substitution",
+                text="Proof: for all forests with plain names the written HTML lexes back (strict lexer, sound and complete for the writer grammar) to the balanced token list of the forest with all strings decoded to the originals; escape never emits < > \" and every & starts one of four entities. Tie: writer and whole conversions vs the model; substitution invariance observed on the real code.",
+                note="that all names reaching the writer are plain is a hypothesis (style-map names are copied verbatim by the code)", ref="4 C02"),
+    "C03": dict(tech="Lean 4 decision-logic theorems (first match, source order, matcher iff-lemmas, ignore drops without visiting) + correspondence on split mapping lists",
+                text="Proof: findStyle is the first matching mapping of user ++ embedded ++ default; each matcher kind matches exactly the stated conjunction for an arbitrary upper-casing function; `!` returns no nodes with the state unchanged. Tie: conversions with mapping lists split between style_map and the embedded part vs the model.",
+                note="str.upper() is a parameter of the theorems; the driver uses ASCII upper-casing and generators avoid names where Python differs", ref="4 C03"),
     "C04": dict(tech="Lean 4 theorems about the model's collapse (merge rule iff, stability, idempotence, text preservation) + differential correspondence real collapse vs Lean collapse",
-                text="Proof: the merge rule, stability of the result, idempotence and text preservation are theorems over all forests (structural induction, no size bound); the tie to the code is the correspondence of mammoth.html.collapse with the Lean function on exhaustive small forests, random forests and forests captured from real conversions. Immutability of the input is runtime behaviour and is observed, not proved.",
+                text="Proof: the merge rule, stability of the result, idempotence and text preservation are theorems over all forests; tie by correspondence of mammoth.html.collapse with the Lean function on exhaustive small forests, random forests and forests captured from real conversions. Immutability of the input is runtime behaviour and is observed.",
                 note="collapse's in-place list mutation is modelled functionally; input-not-mutated is observed on the real code only", ref="4 C04"),
+    "C05": dict(tech="Lean 4 theorems (reader can only fail by fuel/unbalanced fields on statically well-formed XML; converter only by unresolved references; fuel monotone/sufficient) + present/absent/dangling correspondence",
+                text="Proof: on statically well-formed parts the model of the reader has no failure other than unbalanced fields (excluded by the property) and model fuel; the converter fails only on unresolved note/comment/zip references; writers are total. Tie and the real exception behaviour: generated packages with every optional construct toggled, html/markdown/raw.",
+                note="totality of the whole API is composed from per-stage theorems; numStyleLink chains and deleted-paragraph reordering are covered only by the correspondence (theorems labelled _partial)", ref="4 C05"),
+    "C06": dict(tech="Lean 4 theorems (print then tokenise then parse = denote for all expressible mappings; escape round trips; matcher/attribute meaning) + correspondence with an independent Python printer + probe documents",
+                text="Proof: for every expressible abstract mapping the Lean tokeniser and parser read the printed text back as its denotation (C06_read_print) and the denotation matches/emits exactly what is written. Tie: the real parser on independently printed mappings (hostile identifiers/strings, layout variation) and probe conversions with decoys.",
+                note="the hand-written Lean lexer is tied to the regexes by C07_model_agrees and by correspondence; CPython's re is assumed to implement prioritised backtracking", ref="4 C06"),
+    "C07": dict(tech="Lean 4 theorems (tokeniser total with progress, readStyleMap specification, regex backtracking cost model: exponential lower bound for the old string rule, linear bound for the current rules) + correspondence + timing in a killable worker",
+                text="Proof: tokenise is total on every string, readStyleMap applies or reports every non-blank non-# line independently, and in a step-counting model of backtracking matching today's string/identifier rules are linear while the pre-repair rule is exponential. Wall-clock behaviour of CPython's sre is observed (pumped inputs, hard timeouts), not proved.",
+                note="partial on wall-clock time: the cost model abstracts sre; rule sources are re-extracted from tokeniser.py each run", ref="4 C07"),
+    "C08": dict(tech="Lean 4 theorems (default style map evaluated in the kernel, default paths, one fresh block per paragraph, numbering resolution, refinement of collapse on list paths to a stack machine) + correspondence + independent stack-machine oracle",
+                text="Proof: the default map extracted from options.py parses (kernel evaluation) to the stated paths; blocks are fresh hence never shared; collapse of default list paths refines the ListSpec machine for all sequences (C08_lists_nest). Tie: heading/list sequences in body, cells and notes vs model and vs an independent Python machine.",
+                note="the theorems are about the default style map text as extracted from the source on this run", ref="4 C08"),
+    "C09": dict(tech="Lean 4 theorems (calculateRowSpans specification on valid grids, HTML table layout of the result = document grid, thead/tbody/th structure) + exhaustive tilings + independent HTML layout oracle",
+                text="Proof: for every valid grid the row-span sweep keeps exactly the non-continuation cells with the chain-length rowspan and the standard HTML slot assignment of the result reproduces the document's owner grid (C09_layout_eq). Tie: all tilings up to 3x3 (4x4 thorough) plus random 6x6 through the real converter, laid out by an independent implementation.",
+                note="row groups: a merge crossing the header boundary is outside the property's quantifier (and would be cut by thead/tbody in a browser)", ref="4 C09"),
+    "C10": dict(tech="Lean 4 theorems (HYPERLINK instruction parsing for all switches, field stack invariant, note numbering and id/href equations) + correspondence + independent link-graph observations",
+                text="Proof: instruction parsing never leaks switches into the URL, the field stack behaves as a well-nested machine, the k-th note reference is labelled [k] and reference/item/back-link ids correspond, every generated id carries the prefix. Tie: documents with interleaved links, fields, bookmarks, notes, comments vs model; resolution of generated hrefs observed on real output.",
+                note="global href resolution is proved for notes; internal links to absent bookmarks legitimately dangle", ref="4 C10"),
+    "C11": dict(tech="Lean 4 theorems (toggle/underline/highlight reading, runPropPaths specification, wrapAll nesting) + exhaustive 2^9 property subsets + independent wrapper-chain oracle",
+                text="Proof: the run-property path list is exactly the stated sequence of default/mapped wrappers, off-spellings read as off, a plain run adds nothing. Tie: all on/off subsets and random spellings/neighbours/overrides through the real converter, per-character wrapper chains compared with an independent reading and the model.",
+                note="'formatting never extends over another run' follows from C04's merge rule and is observed per character", ref="4 C11"),
+    "C12": dict(tech="Lean 4 model of embed/update_zip/add-or-update/UTF-8 with theorems (round trip, other parts kept, exactly one entry after any history, exact file bytes with truncate, fault before first write leaves the file unchanged) + histories and fault injection on the real code",
+                text="Proof over abstract archives and ElementTree trees with lawful zip/XML codecs as hypotheses: embed then read returns s for all strings (UTF-8 round trip proved), histories keep one entry, the file equals the new archive exactly. Tie: real embeds on generated packages (memory and r+b files), byte-level checks, an I/O error at every file operation.",
+                note="partial on faults inside the final copy (known finding K1) and on zipfile/ElementTree themselves (assumed lawful, exercised)", ref="4 C12"),
+    "C13": dict(tech="Lean 4 DOM model with invariance theorems (strict/transitional swap, comments/PIs/xmlns dropped, CDATA as text, text splitting, ignored elements, part lookup) + respelling metamorphic runs + minidom-DOM correspondence",
+                text="Proof: conversion of the DOM depends only on namespace URIs, is invariant under the Strict/Transitional swap, comments, PIs, xmlns declarations, CDATA vs text and ignored elements; part lookup picks the first existing target. Tie: every generated package rewritten under random compositions of respellings must give identical results; minidom's DOM is fed to the Lean model and compared with xmlparser.",
+                note="expat/zipfile-level respellings (encoding, BOM, entry order, compression) are exercised, not proved", ref="4 C13"),
     "C14": dict(tech="Lean 4 theorems (stripEmpty = prune by hasContent, no empty element survives, text kept) + differential correspondence on forests and captured conversions",
-                text="Proof: strip_empty is characterised for all forests as pruning by the content predicate; tie to the code by correspondence on exhaustive/random/captured forests and by direct observation of ignore_empty_paragraphs=False documents.",
-                note="the ignore_empty_paragraphs=False half is decided by observation of real conversions against an independent count, plus the force-write theorem", ref="4 C14"),
+                text="Proof: strip_empty is characterised for all forests as pruning by the content predicate. Tie: exhaustive/random/captured forests and direct observation of ignore_empty_paragraphs=False documents.",
+                note="the ignore_empty_paragraphs=False half is decided by observation against an independent count plus the force-write theorem", ref="4 C14"),
+    "C15": dict(tech="Lean 4 theorems (attribute dictionaries: strLt total order, insert commutes, ofList permutation invariant, hence write/match/collapse independent of insertion order; fresh state) + histories, threads and PYTHONHASHSEED sweep against the pure model",
+                text="The model is a pure function; proved are the places where Python nondeterminism could enter (dict order). The content of the check is refinement under histories: every call of long random histories, concurrent threads and fresh interpreters under different hash seeds must return the model's answer for that call alone; inputs, retained results and the default style map are re-checked.",
+                note="partial: thread schedules and hash seeds are sampled, not enumerated", ref="4 C15"),
+    "C16": dict(tech="Lean 4 theorems (unique laws, message composition of the API, monotone message state, each warning site iff its anomaly, clean documents silent) + exact message-list correspondence + clean-document generator",
+                text="Proof: messages = unique(options ++ reader ++ converter), nested de-duplications compose, each warning is emitted iff its anomaly, a document of supported constructs with no styles is silent through convertDoc. Tie: exact ordered message lists of generated documents with injected anomalies vs the model; clean documents must report nothing.",
+                note="unmapped table styles and content under `!` are silently dropped by design (documented in DESIGN.md)", ref="4 C16"),
+    "C17": dict(tech="Lean 4 theorems (base64 decode(encode bs) = bs for all byte lists, content-type decision list, data URI shape, converter call log in document order, alt precedence) + byte-exact observations on real conversions",
+                text="Proof: base64 round trip, length and alphabet; content type = override, else exact-extension default, else built-in table; one img per image with the logged call order. Tie: images of all sizes/byte values/declarations through the real converter: strict base64 decoding back to the part bytes, declared types, converter calls.",
+                note="Python's base64 module is compared with the Lean implementation through the data URIs", ref="4 C17"),
+    "C18": dict(tech="Lean 4 theorems (every IoOp of the trace comes from a linked image opened by the converter, resolved against the base; no-name and open-failure give warnings; reader has no I/O channel) + Python audit hooks with DOCTYPE/entity canaries",
+                text="Proof: in the model the only external reads are linked images at the moment the converter opens them. Tie and runtime half: audit events (open, urllib.Request, socket.*) during real conversions of documents with linked images and XML parts declaring external subsets/entities pointing at canaries, compared with the model's ioTrace.",
+                note="partial: that expat fetches nothing is observed, not proved", ref="4 C18"),
+    "C19": dict(tech="Lean 4 theorems (post-order call log, identity law, non-targets unchanged, descendants = post-order strict descendants) + correspondence of a transform family implemented on both sides",
+                text="Proof: transformM calls f exactly on the post-order targets with already transformed children; identity leaves the document and hence the conversion unchanged; descendants lists every strict descendant once. Tie: documents read by the real reader, transform family x entry points, call logs and results vs the model.",
+                note="", ref="4 C19"),
+    "C20": dict(tech="Lean 4 model of cli.main with theorems (bytes written = UTF-8 of value to the chosen sink, stderr lines, image numbering/naming invariant, splitext naming) + subprocess runs of python -m mammoth.cli",
+                text="Proof: cliRun writes exactly utf8(value) to the path/stdout/<stem>.html, messages one per line, the k-th image to k.<subtype> with its bytes. Tie: the real command as a subprocess on generated documents and flag combinations vs the in-process library result and the model.",
+                note="partial: process, locale and argparse are exercised, not modelled; images without a determinable content type crash ImageWriter (documented, outside the quantifier)", ref="4 C20"),
 }
 PENDING = "check not built yet in this revision (work in progress; the property is within reach of the technique)"
 def main():
